@@ -8,7 +8,8 @@ import common
 import sim_gen as SG
 from common import Rng
 
-PROP_FILES = ["theories/Properties/C06.v"]
+import os
+PROP_FILES = ["theories/Properties/C06.v"] + (["theories/Properties/C06Global.v"] if os.path.exists(os.path.join(common.COQ, "theories/Properties/C06Global.v")) else [])
 
 RULE = (
     "schedules: 4-7 validators (unit / small / medium weights), at most one Byzantine member (weight <= f) that is "
